@@ -234,6 +234,9 @@ type impl struct{}
 
 func (impl) M() {}
 
+// sparse: containers are allocated but hold nothing
+var sparse bool
+
 func fill(v reflect.Value, c *int) {
 	*c++
 	switch v.Kind() {
@@ -242,13 +245,19 @@ func fill(v reflect.Value, c *int) {
 			fill(v.Field(i), c)
 		}
 	case reflect.Slice:
+		if sparse { // allocated but empty
+			v.Set(reflect.MakeSlice(v.Type(), 0, 4))
+			return
+		}
 		s := reflect.MakeSlice(v.Type(), 2, 4)
 		s.Index(0).SetInt(int64(*c))
 		s.Index(1).SetInt(int64(*c + 1))
 		v.Set(s)
 	case reflect.Map:
 		m := reflect.MakeMap(v.Type())
-		m.SetMapIndex(reflect.ValueOf("k"), reflect.ValueOf(*c))
+		if !sparse {
+			m.SetMapIndex(reflect.ValueOf("k"), reflect.ValueOf(*c))
+		}
 		v.Set(m)
 	case reflect.Int, reflect.Int64:
 		v.SetInt(int64(*c))
@@ -285,6 +294,13 @@ func mutate(v reflect.Value) (n int) {
 }
 
 func check(name string, ptr any) {
+	sparse = true
+	checkOnce(name, ptr, true)
+	sparse = false
+	checkOnce(name, ptr, false)
+}
+
+func checkOnce(name string, ptr any, quiet bool) {
 	defer func() {
 		if e := recover(); e != nil {
 			fmt.Println("V", name, "PANIC", e)
@@ -327,7 +343,9 @@ func check(name string, ptr any) {
 			fmt.Println("V", name, "ZERO-NOT-EQUAL")
 		}
 	}
-	fmt.Println("OK", name, n)
+	if !quiet {
+		fmt.Println("OK", name, n)
+	}
 }
 
 var probes []func()
@@ -392,6 +410,17 @@ func checkMap(name string, m any) {
 	cp.SetMapIndex(reflect.ValueOf("k"), reflect.ValueOf(1000))
 	if v.MapIndex(reflect.ValueOf("k")).Int() != 1 {
 		fmt.Println("V", name, "SHARED")
+	}
+	// allocated but empty
+	em := reflect.MakeMap(v.Type())
+	ecp := em.MethodByName("DeepCopy").Call(nil)[0]
+	if ecp.IsNil() || ecp.Len() != 0 {
+		fmt.Println("V", name, "NOT-EQUAL")
+	} else {
+		ecp.SetMapIndex(reflect.ValueOf("k"), reflect.ValueOf(1))
+		if em.Len() != 0 {
+			fmt.Println("V", name, "SHARED")
+		}
 	}
 	if r := reflect.Zero(v.Type()).MethodByName("DeepCopy").Call(nil)[0]; !r.IsNil() {
 		fmt.Println("V", name, "NIL-NOT-NIL")
@@ -671,7 +700,7 @@ func init() {
 			Name: "graphs", Quick: 300, Thorough: 3000, New: func() Case { return &dcopyCase{} },
 			Gen:      func(r *Rng, i int) Case { return genDcopy(r) },
 			BatchRun: dcopyBatch, ShrinkBudget: 25, MaxShrinks: 6,
-			Rule: "packages of 2–7 declarations: structs with int, []int, map[string]int, error, any, unnamed-interface, same-package named (struct / defined map / defined scalar / defined interface) and instantiated-generic fields, generic structs with bare type-parameter fields, defined maps and scalars, tagged and untagged dependencies, the gengo:deepcopy:interfaces tag; the real generator run twice (100 packages per Execute), the Go compiler after each run, and one probe program per batch that fills every enabled type with non-nil containers at every depth, calls the generated DeepCopy, requires reflect.DeepEqual, mutates every slice and map reachable in the copy and compares the original with an identically filled twin; compared with the model: emitted methods in order, statement form per field, compiles or not, on both runs; oracle: compiles on both runs, identical output, nil receiver gives nil, equal, nothing shared",
+			Rule: "packages of 2–7 declarations: structs with int, []int, map[string]int, error, any, unnamed-interface, same-package named (struct / defined map / defined scalar / defined interface) and instantiated-generic fields, generic structs with bare type-parameter fields, defined maps and scalars, tagged and untagged dependencies, the gengo:deepcopy:interfaces tag; the real generator run twice (100 packages per Execute), the Go compiler after each run, and one probe program per batch that fills every enabled type twice — with allocated but empty containers, then with non-empty ones — at every depth, calls the generated DeepCopy, requires reflect.DeepEqual, mutates every slice and map reachable in the copy and compares the original with an identically filled twin; compared with the model: emitted methods in order, statement form per field, compiles or not, on both runs; oracle: compiles on both runs, identical output, nil receiver gives nil, equal, nothing shared",
 		},
 	}})
 }
